@@ -14,7 +14,10 @@ WEIGHTS = {"eval": 5, "del_cells": 3, "del_space": 2, "del_ref": 2, "bases": 3, 
 def swarm(rng):
     cfg = c02.swarm(rng)
     cfg.update({"p_handle": rng.choice([0.25, 0.4]), "n_steps": rng.choice([12, 20, 30]),
-                "p_sformula": rng.choice([0.3, 0.5]), "p_bases": rng.choice([0.4, 0.7]), "p_check": 0.15})
+                "p_sformula": rng.choice([0.3, 0.5]), "p_bases": rng.choice([0.4, 0.7]), "p_check": 0.15,
+                "base_switch": rng.random() < 0.3, "quiet": rng.random() < 0.3, "p_cellsless": rng.choice([0.0, 0.0, 0.4])})
+    if rng.random() < 0.15:
+        cfg.update({"gadget_refs_only": True, "cellsless_paths": ["D", "C.U"], "n_spaces": max(cfg["n_spaces"], 3)})
     return cfg
 
 
@@ -103,6 +106,10 @@ class DeletionOracle(history.Oracle):
                 a = op["args"]
                 item = sp[tuple(a) if len(a) != 1 else a[0]]
                 h["key"] = tuple(item.argvalues)
+                ret = ref.formula.get("ret")
+                if ret and "base" in ret:
+                    # the space this instance is built from (the parameter formula names another base)
+                    h["rbase"] = mach.ref.space(ret["base"])
                 if k == "item":
                     h["obj"] = item
                 elif k == "dyncells":
@@ -123,9 +130,15 @@ class DeletionOracle(history.Oracle):
     def after(self, op, out):
         if op["op"] in ("gc",) or out is None or out.get("st") == "skip":
             return
+        if self.run.cfg.get("quiet"):
+            # observing refreshes namespaces and can hide what an unobserved history leaves behind: in quiet runs the
+            # handles are only looked at once, after the last step
+            return
         self.check_all(op)
 
     def checkpoint(self, op):
+        if self.run.cfg.get("quiet") and op.get("final"):
+            self.check_all({"op": "final"})
         self.check_graph({"op": "checkpoint"})
 
     # ------------------------------------------------------------------
@@ -171,6 +184,9 @@ class DeletionOracle(history.Oracle):
             return None
         # dynamic objects: an ItemSpace may be discarded and re-created at any edit: raises or current
         if rs.formula is None:
+            return True
+        if h.get("rbase") is not None and h["rbase"].deleted:
+            # built from a space that has been deleted since: derived from a deleted object
             return True
         if k == "dyncells" and h["name"] not in gen.visible_cells(rs):
             return True
@@ -270,6 +286,67 @@ def strip(op):
     return {k: v for k, v in op.items() if k != "formula"}
 
 
+class DynamicCopyOracle(history.Oracle):
+    """Existing ItemSpaces (never created by the oracle) list exactly the members of the space they were built from:
+    a member deleted from the base - directly, through a base relation, or with its space - is gone from every dynamic copy."""
+
+    def checkpoint(self, op):
+        mach = self.mach
+        found = []
+        # dynamic side first: reading the static side refreshes its namespace, which is what discards stale copies
+
+        def walk_dyn(dyn, rstatic, label):
+            try:
+                names = (sorted(dyn.cells), sorted(n for n in dyn.refs if not n.startswith("_")), sorted(dyn.spaces))
+            except Exception:
+                return
+            found.append((label, rstatic, names))
+            for cn in names[2]:
+                rs = rstatic.spaces.get(cn)
+                if rs is not None:
+                    try:
+                        walk_dyn(dyn.spaces[cn], rs, label + "." + cn)
+                    except Exception:
+                        pass
+
+        for rs in mach.ref.all_spaces():
+            if rs.formula is None or (rs.formula.get("ret") and "base" in rs.formula["ret"]):
+                continue
+            try:
+                live = mach.world.space(rs.path())
+                items = dict(live.itemspaces)
+            except Exception:
+                continue
+            for key, it in items.items():
+                walk_dyn(it, rs, "%s[%s]" % (rs.path(), key))
+        for label, rs, (dcells, drefs, dspaces) in found:
+            self.ctx.count("dynamic_copies_compared", 1, "reach")
+            try:
+                want_cells = sorted(gen.visible_cells(rs))
+                want_refs = set(rm.derived_refs(rs)) | set(mach.ref.refs)
+            except rm.NoMRO:
+                continue
+            if dcells != want_cells:
+                raise Violation("C13/dynamic-copy-cells-differ/%s" % ("extra" if set(dcells) - set(want_cells) else "missing"),
+                                {"instance": label, "has": dcells, "base_has": want_cells, "after": strip(op)})
+            extra = set(drefs) - want_refs
+            allowed = set()
+            x = rs
+            while isinstance(x, rm.RSpace):
+                if x.formula is not None:
+                    allowed |= {p_ for p_, d in x.formula["params"]}
+                    ret = x.formula.get("ret")
+                    if ret and "refs" in ret:
+                        allowed |= set(ret["refs"])
+                x = x.parent
+            if extra - allowed:
+                self.ctx.nontrivial = True
+                raise Violation("C13/dynamic-copy-lists-deleted-reference", {"instance": label, "names": sorted(extra - allowed), "after": strip(op)})
+            missing = {n for n in want_refs if not n.startswith("_")} - set(drefs)
+            if missing:
+                raise Violation("C13/dynamic-copy-misses-reference", {"instance": label, "names": sorted(missing), "after": strip(op)})
+
+
 class C13(PropBase):
     id = "C13"
     level = "exploration"
@@ -287,9 +364,21 @@ class C13(PropBase):
         if ctx.doc is None:
             ctx.cfg = swarm(ctx.rng("cfg"))
         cfg = ctx.cfg
-        run = history.Run(ctx, cfg, [DeletionOracle(), history.TwinOracle("C13")])
+        run = history.Run(ctx, cfg, [DynamicCopyOracle(), DeletionOracle(), history.TwinOracle("C13")])
         if ctx.doc is None:
-            run.generate(WEIGHTS, cfg["n_steps"], cfg["p_check"])
+            if cfg.get("gadget_refs_only"):
+                # a references-only space inherited by a references-only child of a parametrised space: its dynamic copies
+                # are reached only through the parent's ItemSpaces, and nothing ever reads its namespace
+                for op in ({"op": "new_space", "parent": "", "name": "D", "bases": []},
+                           {"op": "set_ref", "space": "D", "name": "k", "value": {"t": "int", "v": 1007}},
+                           {"op": "set_ref", "space": "D", "name": "m", "value": {"t": "int", "v": 1014}},
+                           {"op": "new_space", "parent": "", "name": "C", "bases": [],
+                            "formula": {"params": [["i", None]], "ret": None, "probe": False}},
+                           {"op": "new_space", "parent": "C", "name": "U", "bases": ["D"]},
+                           {"op": "take_handle", "kind": "itemchild", "space": "C", "args": [1], "child": "U"},
+                           {"op": "take_handle", "kind": "itemchild", "space": "C", "args": [2], "child": "U"}):
+                    run.step(op)
+            run.generate(WEIGHTS, cfg["n_steps"], 0.0 if cfg.get("quiet") else cfg["p_check"])
         else:
             run.replay(ctx.doc["steps"])
         run.finish()
